@@ -125,8 +125,11 @@ class Register:
         try:
             if self.name != other.name:
                 return False
+            if self.fundamental != other.fundamental:
+                # A register never equals an alias, even one of the same size
+                return False
             if self.fundamental:
-                return self.size == other.size
+                return self._size == other._size
             else:
                 return (
                     self.alias_from == other.alias_from
